@@ -11,6 +11,7 @@ open O2P.Gate
 #print axioms cover_sound_universe
 #print axioms or_inference_sound
 #print axioms or_inference_tree_sound
+#print axioms or_inference_tree_sound_below
 #print axioms or_test_spec
 #print axioms or_inference_leaves_sound
 #print axioms post_flat_or_sound
